@@ -77,7 +77,7 @@ Qed.
 Print Assumptions co_rules_hold.
 
 (* the rules by property (what props/C07.v, C10.v, C11.v, C13.v, C19.v cite) *)
-Lemma in_co_rules : forall r, In r c07_rules \/ In r c10_rules \/ In r c11_rules \/ In r c13_rules \/ In r c19_rules -> In r co_rules.
+Lemma in_co_rules : forall r, In r c07_rules \/ In r c10_rules \/ In r c11_rules \/ In r c13_rules \/ In r c19_rules \/ In r c20_rules -> In r co_rules.
 Proof.
   intros r H. unfold co_rules. repeat rewrite in_app_iff. tauto.
 Qed.
@@ -91,8 +91,10 @@ Theorem co_C13_rules_hold : forall r, In r c13_rules -> rule_holds r.
 Proof. intros r H. apply co_rules_hold, in_co_rules. tauto. Qed.
 Theorem co_C19_rules_hold : forall r, In r c19_rules -> rule_holds r.
 Proof. intros r H. apply co_rules_hold, in_co_rules. tauto. Qed.
+Theorem co_C20_rules_hold : forall r, In r c20_rules -> rule_holds r.
+Proof. intros r H. apply co_rules_hold, in_co_rules. tauto. Qed.
 
 (* non-vacuity: each property has rules *)
 Example rules_counts : List.length c07_rules = 5%nat /\ List.length c10_rules = 4%nat /\ List.length c11_rules = 1%nat
-  /\ List.length c13_rules = 3%nat /\ List.length c19_rules = 9%nat.
+  /\ List.length c13_rules = 3%nat /\ List.length c19_rules = 9%nat /\ List.length c20_rules = 4%nat.
 Proof. vm_compute. repeat split. Qed.
